@@ -3,6 +3,7 @@ package main
 import (
 	"fmt"
 
+	"github.com/LiskHQ/lisk-engine/pkg/blockchain"
 	"verifharness/internal/exh"
 )
 
@@ -11,31 +12,39 @@ func main() {
 	if err != nil {
 		panic(err)
 	}
-	fmt.Println("genesis ok, tip", n.Tip().Header.Height, "dump keys", len(n.Dump()))
-	for i := 0; i < 12; i++ {
-		b := n.NextValid(exh.Build{})
-		r := n.ProcessValidated(b, false)
-		f, _ := n.Finalized()
-		a, p, c := n.Heights()
-		fmt.Println("apply", b.Header.Height, exh.ErrClass(r), r.Err, "fin", f, "heights", a, p, c, n.DrainEvents())
+	for i := 0; i < 3; i++ {
+		n.ProcessValidated(n.NextValid(exh.Build{}), false)
 	}
 	d0 := n.DumpDigest()
+	// wrong event root
 	b := n.NextValid(exh.Build{})
 	b.Header.EventRoot = make([]byte, 32)
 	n.Sign(b.Header, n.ValidatorByAddr(b.Header.GeneratorAddress))
+	fmt.Println("validate:", b.Validate())
 	r := n.ProcessValidated(b, false)
 	fmt.Println("wrong event root:", exh.ErrClass(r), "db same", d0 == n.DumpDigest())
-	if r.OK() {
-		fmt.Println("delete:", exh.ErrClass(n.DeleteBlock(n.Tip(), false)), "db same", d0 == n.DumpDigest())
+	n.DeleteBlock(n.Tip(), false)
+	fmt.Println("restored", d0 == n.DumpDigest())
+	// statically invalid tx
+	tx := exh.MakeTx(1, 10)
+	tx.SenderPublicKey = []byte{1, 2, 3}
+	tx.Init()
+	fmt.Println("tx.Validate:", tx.Validate())
+	b = n.NextValid(exh.Build{Txs: []*blockchain.Transaction{tx}})
+	fmt.Println("validate:", b.Validate())
+	r = n.Process(b)
+	fmt.Println("static-invalid tx via process:", exh.ErrClass(r), "tip", n.Tip().Header.Height, "db same", d0 == n.DumpDigest())
+	n.DeleteBlock(n.Tip(), false)
+	fmt.Println("restored", d0 == n.DumpDigest())
+	// oversized payload
+	txs := []*blockchain.Transaction{}
+	sz := 0
+	for i := 0; i < 3; i++ {
+		t := exh.MakeTx(uint64(10+i), 14000)
+		txs = append(txs, t)
+		sz += t.Size()
 	}
-	fmt.Println("restart:", n.Restart(), "tip", n.Tip().Header.Height, "same", d0 == n.DumpDigest())
-	r = n.DeleteBlock(n.Tip(), true)
-	fmt.Println("delete:", exh.ErrClass(r), n.DrainEvents())
-	for n.Tip().Header.Height > 0 {
-		r = n.DeleteBlock(n.Tip(), true)
-		if !r.OK() {
-			fmt.Println("delete stops at", n.Tip().Header.Height, exh.ErrClass(r))
-			break
-		}
-	}
+	b = n.NextValid(exh.Build{Txs: txs})
+	r = n.Process(b)
+	fmt.Println("payload", sz, "limit", n.Opt.MaxTxLen, "via process:", exh.ErrClass(r), "tip", n.Tip().Header.Height)
 }
